@@ -12,8 +12,14 @@ theorems about the executable model of `dialect::OrthoPlanariser` (only theorems
 -/
 import AdaptaVerif.Lemmas.PlanariseSweep
 import AdaptaVerif.Lemmas.PlanariseGood
+import AdaptaVerif.Lemmas.PlanariseConnSweep
 namespace AdaptaVerif.Props.C19Planarise
 open AdaptaVerif.Model.Planarise AdaptaVerif.Lemmas.Planarise AdaptaVerif.Check.Planarise
+
+def wA : Node := ⟨0, ⟨0, 0⟩⟩
+def wB : Node := ⟨1, ⟨60, 40⟩⟩
+def wC : Node := ⟨2, ⟨-20, 20⟩⟩
+def wD : Node := ⟨3, ⟨100, 20⟩⟩
 
 /-! ### (0) the comparator -/
 
@@ -140,12 +146,55 @@ def gridSegs : List Seg :=
 example : Good gridSegs := goodB_sound _ (by decide +kernel)
 example : ((computeCrossings gridSegs 10).cross.map (·.p)).length = 6 := by decide +kernel
 
-/-! ### (4) closed witnesses -/
 
-def wA : Node := ⟨0, ⟨0, 0⟩⟩
-def wB : Node := ⟨1, ⟨60, 40⟩⟩
-def wC : Node := ⟨2, ⟨-20, 20⟩⟩
-def wD : Node := ⟨3, ⟨100, 20⟩⟩
+/-! ### (4) connections survive the cuts
+
+`Joined segs a b`: some segment of `segs` has end nodes `a` and `b`.  `ChainVia segs new a mids b`: the nodes
+`a, mids…, b` are consecutively joined and every intermediate node is in `new`. -/
+
+/-- One cut (the SUSTAIN arm of the sweep: `setNewClosingNode` on both segments + two continuation segments)
+preserves every connection, for ALL states: if the two cut segments end at `c1`, `c2` and the continuation
+segments are built from (cr, c1), (cr, c2), whatever was joined is still joined, directly or through `cr`. -/
+theorem cut_preserves_connections (segs : List Seg) (a1 a2 : Nat) (t1 t2 : Seg) (cr : Node)
+    (h1 : segs[a1]? = some t1) (h2 : segs[a2]? = some t2) (hne : a1 ≠ a2) (new : List Node) (a b : Node)
+    (h : Reach segs new a b) :
+    Reach (((segs.set a1 (t1.setNewClosing cr)).set a2 (t2.setNewClosing cr)) ++ [mkSeg cr t1.cn] ++ [mkSeg cr t2.cn])
+      (cr :: new) a b :=
+  reach_reroute (fun _ _ hj => joined_cross h1 h2 hne rfl rfl hj) h
+
+/-- **Connections, crossing-removal stage, all segment lists** (`_partial`: see below).  After `computeCrossings`
+every segment of the input (= every edge of the overlap-free graph) is still connected end to end by a chain of
+final segments whose intermediate nodes are all crossing nodes created by the sweep.
+
+Partial with respect to the brief's `planarise_preserves_nodes_and_connections`: (a) original nodes kept is
+`planarise_preserves_nodes` (whole pipeline, all inputs); (b) the chain is proved for the stage `removeEdgeCrossings`
+on ANY segment list satisfying `Good`, not composed with `removeEdgeOverlaps` (bend nodes, node groups: exact tie and
+per-run validation only); (c) that the chain visits the crossing nodes in route order is not stated. -/
+theorem planarise_preserves_nodes_and_connections_partial (S : List Seg) (nextId : Nat) (hG : Good S) :
+    ∀ s ∈ S, ∃ mids : List Node, (∀ m ∈ mids, m ∈ (computeCrossings S nextId).cross) ∧
+      Linked (computeCrossings S nextId).segs (s.on :: mids ++ [s.cn]) := by
+  intro s hs
+  obtain ⟨i, hi⟩ := List.getElem?_of_mem hs
+  exact linked_of_reach (computeCrossings_reach hG nextId i s hi)
+
+/-- input of `short_segment_disconnects`: the jog of `jogInput (1/2)` and two horizontal edges C→D (y = 20),
+E→F (y = 30) that end at x = 40, left of the second vertical (replay: harness case `planx-jog-witness`) -/
+def jogInput2 : Input :=
+  { nodes := [wA, wB, ⟨2, ⟨-20, 20⟩⟩, ⟨3, ⟨40, 20⟩⟩, ⟨4, ⟨-20, 30⟩⟩, ⟨5, ⟨40, 30⟩⟩],
+    edges := [⟨wA, wB, [⟨0, 0⟩, ⟨20, 0⟩, ⟨20, 1/2⟩, ⟨60, 1/2⟩, ⟨60, 40⟩]⟩,
+              ⟨⟨2, ⟨-20, 20⟩⟩, ⟨3, ⟨40, 20⟩⟩, [⟨-20, 20⟩, ⟨40, 20⟩]⟩,
+              ⟨⟨4, ⟨-20, 30⟩⟩, ⟨5, ⟨40, 30⟩⟩, [⟨-20, 30⟩, ⟨40, 30⟩]⟩] }
+
+/-- The hypothesis is needed for the connections too (second face of the known finding): two spurious crossings on
+the short jog re-close the REVERSED continuation segment, the jog edge 6–7 becomes 6–9, 7–10, 7–10, and the original
+adjacency A–B is no longer realised by a chain of new nodes (`chainB` = the driver's check). -/
+theorem short_segment_disconnects :
+    (planarise jogInput2).edges = [(0, 6), (7, 8), (2, 9), (4, 10), (6, 9), (8, 1), (9, 3), (7, 10), (10, 5), (7, 10)] ∧
+    chainB [0, 1, 2, 3, 4, 5] (planarise jogInput2).edges 0 1 = false := by
+  decide +kernel
+
+/-! ### (5) closed witnesses -/
+
 /-- edge A→B routed (0,0) (20,0) (20,d) (60,d) (60,40) — a vertical jog of length `d` at x = 20 — and the
 straight horizontal edge C→D at y = 20 (replay: harness `--mode shortseg` for d = 1/2) -/
 def jogInput (d : Rat) : Input :=
